@@ -344,7 +344,8 @@ def run_check(pid, tier, seed, jobs, select=None):
         lines.append(f"UNDECIDED {u}")
     for e in errors[:10]:
         lines.append(f"CHECKER-ERROR {e}")
-    code = 3 if errors else (1 if violations else (2 if undecided else 0))
+    # a violation found (and replayed / named) stands whatever else went wrong in the same run
+    code = 1 if violations else (3 if errors else (2 if undecided else 0))
     if code == 0:
         lines.append(f"OK property={pid}")
     wall = round(time.time() - t0, 2)
